@@ -30,13 +30,13 @@ Example getitem_slice_other_tables :
   py_getitem_idx_gen true d_provenances prov_tbl [1; 0] = Ok (rows_at (abs prov_tbl) [1; 0]).
 Proof. split; vm_compute; reflexivity. Qed.
 
-(* F14 (NOT repaired in /repo; the code has the variant [append_columns_gen false false], see
-   the regenerated facts c13_binding_checks_offsets / c13_append_offsets_checked_first; the
-   ready-to-apply repair is /verif/fixes/C13-F14-atomic-column-setters.diff): a refused append_columns (bad offsets in the ragged column treated last) leaves
+(* F14 (repaired in /repo by 86175ae = fixes/C13-F14-atomic-column-setters.diff; the regenerated
+   facts c13_binding_checks_offsets / c13_append_offsets_checked_first are now true).  Historical
+   record about the PINNED variant [append_columns_gen false false]: a refused append_columns (bad offsets in the ragged column treated last) leaves
    the table outside its invariant ... *)
 Definition f14_cols : cols := ([[5; 6]], [Some ([9; 8], [0; 1; 2]); Some ([1; 1], [0; 3; 2]); None]).
 
-Theorem append_columns_not_atomic_refuted :
+Theorem append_columns_not_atomic_pinned_refuted :
   exists t cs t', WF d_individuals t /\
     append_columns_gen false false d_individuals t cs = (t', Err TSK_ERR_BAD_OFFSET) /\
     WFb d_individuals t' = false.
@@ -46,7 +46,7 @@ Proof.
 Qed.
 
 (* ... and the next add_row then stores a row that is not the row that was added *)
-Theorem add_row_after_refused_append_refuted :
+Theorem add_row_after_refused_append_pinned_refuted :
   exists t cs r, WF d_individuals t /\ row_ok d_individuals r = true /\
     snd (append_columns_gen false false d_individuals t cs) = Err TSK_ERR_BAD_OFFSET /\
     (do t'' <- add_row d_individuals (fst (append_columns_gen false false d_individuals t cs)) r;
@@ -61,14 +61,14 @@ Qed.
 Definition site_tbl := build_tbl d_sites [([0], [[65]; [1]]); ([1], [[67]; []])].
 Definition f14_site_cols : cols := ([[2]], [Some ([71], [1; 1]); Some ([5], [0; 1])]).
 
-Theorem site_add_row_after_refused_append_aborts :
+Theorem site_add_row_after_refused_append_aborts_pinned_refuted :
   WF d_sites site_tbl /\
   snd (append_columns_gen false false d_sites site_tbl f14_site_cols) = Err TSK_ERR_BAD_OFFSET /\
   add_row d_sites (fst (append_columns_gen false false d_sites site_tbl f14_site_cols)) ([3], [[84]; []]) = Err BUG_ASSERT.
 Proof. repeat split; vm_compute; reflexivity. Qed.
 
 (* a refused set_columns has already emptied the table *)
-Theorem set_columns_failure_clears_refuted :
+Theorem set_columns_failure_clears_pinned_refuted :
   exists t cs t', WF d_nodes t /\ abs t <> [] /\
     set_columns_gen false false d_nodes t cs = (t', Err TSK_ERR_BAD_OFFSET) /\ abs t' = [].
 Proof.
